@@ -1,7 +1,9 @@
-(* ConfigProofs.v — lemmas for C16.  The soundness proof is written against the GENERATED rule list: it turns
-   `forallb (fun r => r c) gen_rules = true` into one hypothesis per rule (whatever their number and order) and proves
+(* ConfigProofs.v — lemmas for C16.  The soundness proof is written against the hand-written validation MODEL
+   (`model_rules` of SpecConfig.v; nothing here depends on coq/Generated.v): it turns
+   `forallb (fun r => r c) model_rules = true` into one hypothesis per rule (whatever their number and order) and proves
    each conjunct of `safe` from the whole set with lia (ZifyBool) plus case analysis on the string literals of the
-   documented sets.  It fails when a rule that a conjunct needs has been removed or weakened. *)
+   documented sets.  It fails when a rule that a conjunct needs is removed from the model or weakened.
+   (The same tactics are re-used by proofs/ConfigGenAgree.v on the rule list re-derived from the source.) *)
 From Coq Require Import String ZArith List Bool Lia.
 Require Import ZifyBool.
 From Esc Require Import SpecConfig.
@@ -63,14 +65,20 @@ Proof.
   destruct (f x); simpl; [exact IH | split; discriminate].
 Qed.
 
-Lemma gen_problems_zero : forall c, gen_problems c = 0 <-> gen_validate c = true.
+Lemma problems_of_zero : forall rules c, problems_of rules c = 0 <-> forallb (fun r => r c) rules = true.
 Proof.
-  intro c. unfold gen_problems, gen_validate. rewrite <- (filter_nil_forallb _ (fun r => r c)). lia.
+  intros rules c. unfold problems_of. rewrite <- (filter_nil_forallb _ (fun r => r c)). lia.
 Qed.
 
+Lemma model_problems_zero : forall c, model_problems c = 0 <-> model_validate c = true.
+Proof. intro c. apply problems_of_zero. Qed.
+
 (* ---- from the rule list to one hypothesis per rule ---- *)
+Ltac unfold_model_helpers_in H :=
+  unfold auto_discover_min_max, valid_taint_effect, valid_aws_lifecycle, valid_max_node_age, taint_effect_types in H.
+
 Ltac split_rules H :=
-  unfold gen_validate, gen_rules in H; cbn [forallb] in H; cbv beta in H;
+  unfold model_validate, model_rules in H; cbn [forallb] in H; cbv beta in H; unfold_model_helpers_in H;
   repeat (let R := fresh "R" in apply andb_prop in H; destruct H as [R H]); clear H.
 
 (* the two spellings of "is empty" for a string, and 0 <= len *)
@@ -100,7 +108,7 @@ Ltac in_literals e :=
          end;
   exfalso; cbn [str_map_get] in *; lia.
 
-Lemma gen_validate_safe : forall c, gen_validate c = true -> safe c.
+Lemma model_validate_safe : forall c, model_validate c = true -> safe c.
 Proof.
   intros c H. split_rules H.
   unfold safe, soft_ns, hard_ns, cooldown_ns, max_node_age_valid, taint_effects, lifecycles.
@@ -131,16 +139,4 @@ Lemma keys_honoured_spec : forall documented tags, keys_honoured documented tags
 Proof.
   intros d t H k Hk. unfold keys_honoured in H. rewrite forallb_forall in H.
   specialize (H k Hk). apply orb_true_iff in H. rewrite !mem_str_In in H. exact H.
-Qed.
-
-(* finite statement, decided by computation on the generated tables *)
-Lemma documented_keys_honoured :
-  (forall k, In k gen_documented_keys -> In k gen_json_tags \/ In k known_unhonoured) /\
-  (forall k, In k gen_documented_aws_keys -> In k gen_aws_json_tags).
-Proof.
-  split.
-  - apply keys_honoured_spec. vm_compute. reflexivity.
-  - intros k Hk.
-    assert (H : forallb (fun k => mem_str k gen_aws_json_tags) gen_documented_aws_keys = true) by (vm_compute; reflexivity).
-    rewrite forallb_forall in H. apply mem_str_In. exact (H k Hk).
 Qed.
